@@ -87,10 +87,13 @@ def extract_unit(root, unit, workdir, canary=None, flags_off=False):
     return out, mapf
 
 
-def run_verus(path, rlimit, seed, threads=8, timeout=900):
+def run_verus(path, rlimit, seed, threads=8, timeout=900, nonlinear=False):
     cmd = [VERUS, os.path.basename(path), "--output-json", "--time-expanded", "--rlimit", str(rlimit),
            "--smt-option", "smt.random_seed=%d" % seed, "--error-format=json", "--num-threads", str(threads),
            "--multiple-errors", "4", "--no-report-long-running"]
+    if nonlinear:
+        # exact-arithmetic differential only: let Z3 reason about products of real-valued terms (associativity, distribution)
+        cmd += ["--smt-option", "smt.arith.nl=true"]
     rc, so, se, dt = sh(cmd, cwd=os.path.dirname(path), timeout=timeout)
     return rc, so, se, dt, " ".join(cmd)
 
@@ -238,39 +241,45 @@ def insert_lemma_canary(path, lemma):
     return out
 
 
-def apply_f64_iso(root, path):
-    """C19 differential: the same unit with the 'T is isomorphic to f64' axioms of preamble/f64iso.rs in force"""
+def apply_extra_axioms(root, path, preamble_file, groups, suffix):
+    """differential re-verification: the same unit with the axiom group(s) of contracts/preamble/<preamble_file> in force"""
     txt = open(path).read()
-    iso = open(os.path.join(root, "contracts/preamble/f64iso.rs")).read()
+    extra = open(os.path.join(root, "contracts/preamble", preamble_file)).read()
     i = txt.find("} // mod pre")
     m = re.search(r"^broadcast use (\{[^}]*\}|[A-Za-z_0-9]+);", txt[i:], re.M)
     if i < 0 or not m:
-        raise Undecided("f64-iso differential: unit layout not recognised")
-    inner = m.group(1).strip("{} ")
-    use = "broadcast use {%s, f64_iso_axioms};" % inner
-    txt2 = txt[:i] + iso + "\n" + txt[i:i + m.start()] + use + txt[i + m.end():]
-    out = path[:-3] + "_iso.rs"
+        raise Undecided("differential (%s): unit layout not recognised" % suffix)
+    inner = [x.strip() for x in m.group(1).strip("{} ").split(",") if x.strip()]
+    for g in groups:
+        if g not in inner:
+            inner.append(g)
+    use = "broadcast use {%s};" % ", ".join(inner)
+    txt2 = txt[:i] + extra + "\n" + txt[i:i + m.start()] + use + txt[i + m.end():]
+    out = path[:-3] + "_%s.rs" % suffix
     open(out, "w").write(txt2)
     # the source map is keyed by line: lines inside `mod unit` shift by the inserted text
-    return out, iso.count("\n") + 1
+    return out, extra.count("\n") + 1
 
 
-def verify_unit(root, unit, workdir, rlimit, seed, canary=None, threads=8, flags_off=False, lemma_canary=None, f64_iso=False):
+def verify_unit(root, unit, workdir, rlimit, seed, canary=None, threads=8, flags_off=False, lemma_canary=None, f64_iso=False, exact=False):
     path, mapf = extract_unit(root, unit, workdir, canary=canary, flags_off=flags_off)
-    if f64_iso:
-        path, shift = apply_f64_iso(root, path)
+    if f64_iso or exact:
+        if f64_iso:
+            path, shift = apply_extra_axioms(root, path, "f64iso.rs", ["f64_iso_axioms"], "iso")
+        else:
+            path, shift = apply_extra_axioms(root, path, "exact.rs", ["field_axioms", "exact_arith_axioms"], "exact")
         m = json.load(open(mapf))
         for it in m.get("items", []):
             if it.get("unit_lines"):
                 it["unit_lines"] = [it["unit_lines"][0] + shift, it["unit_lines"][1] + shift]
             if it.get("body_first_unit_line") is not None:
                 it["body_first_unit_line"] += shift
-        mapf = mapf[:-9] + "_iso.map.json" if mapf.endswith(".map.json") else mapf + ".iso"
+        mapf = mapf[:-9] + ("_iso" if f64_iso else "_exact") + ".map.json" if mapf.endswith(".map.json") else mapf + ".diff"
         json.dump(m, open(mapf, "w"))
     if lemma_canary:
         path = insert_lemma_canary(path, lemma_canary)
         canary = "lemma:" + lemma_canary
-    rc, so, se, dt, cmd = run_verus(path, rlimit, seed, threads=threads)
+    rc, so, se, dt, cmd = run_verus(path, rlimit, seed, threads=threads, nonlinear=exact)
     r = parse_verus(path, mapf, rc, so, se)
     if r["status"] == "resource":
         # a budget effect is never a violation: retry once with 5x the budget and another seed
@@ -286,7 +295,7 @@ def verify_unit(root, unit, workdir, rlimit, seed, canary=None, threads=8, flags
         stable = {key(f): f for f in r["failures"]}
         flaky = []
         for extra_seed in (seed + 17, seed + 31):
-            rc2, so2, se2, dt2, _ = run_verus(path, rlimit * 3, extra_seed, threads=threads)
+            rc2, so2, se2, dt2, _ = run_verus(path, rlimit * 3, extra_seed, threads=threads, nonlinear=exact)
             dt += dt2
             r2 = parse_verus(path, mapf, rc2, so2, se2)
             if r2["status"] == "ok":
@@ -700,6 +709,32 @@ def check_property(root, pid, tier, seed):
                         entry["flag_dependent"] += 1
         diff_report.append(entry)
 
+    # Exact-arithmetic differential (properties stated up to a rounding tolerance): a Verus violation of this property that is
+    # discharged when the scalar is read as a real number (field axioms + injectivity of val) is the same real value computed by a
+    # different association / distribution: a rounding-level change, which the property allows. It is removed from the violations.
+    rounding_only = []
+    if P.get("differential_exact") and any(not v.get("kani") for v in violations):
+        exact_units = set(du["unit"] for du in P["differential_exact"])
+        by_unit = {}
+        for v in violations:
+            if not v.get("kani") and v.get("unit") in exact_units:
+                by_unit.setdefault(v["unit"], []).append(v)
+        for uname, vs in by_unit.items():
+            try:
+                rx = verify_unit(root, uname, os.path.join(work, "exact"), rlimit * 3, seed, exact=True)
+            except Undecided:
+                continue
+            if rx["status"] == "undecided":
+                continue
+            key = lambda f: (f.get("function"), f.get("message"), f.get("unit_text"))
+            still = set(key(f) for f in rx["failures"]) if rx["status"] == "fail" else set()
+            for v in vs:
+                if key(v) not in still:
+                    violations.remove(v)
+                    total_err -= 1
+                    total_ver += 1
+                    rounding_only.append({"unit": uname, "function": v.get("function"), "obligation": v.get("unit_text", "")[:200], "message": v.get("message")})
+
     # C19 differential: an obligation that fails for an abstract scalar but is discharged once `from_f64` / `to_f64` are assumed to be
     # mutually inverse and to commute with every trait operation (i.e. "if T were f64") is code that is right for f64 only: it takes a
     # shortcut through f64 arithmetic or f64 constants, which is what C19 forbids
@@ -798,6 +833,7 @@ def check_property(root, pid, tier, seed):
             "kani": kani_report,
             "debug_flag_differential": diff_report,
             "f64_isomorphism_differential": iso_report,
+            "rounding_level_changes_accepted_by_the_exact_arithmetic_differential": rounding_only,
             "repo_state_scan": scan,
             "assumption_lines": {k: len(v) for k, v in assumptions_found.items()},
             "not_decided": P.get("not_decided", []),
